@@ -22,6 +22,7 @@ type WOp struct {
 	Select    []string       `json:"select,omitempty"`
 	Target    uint           `json:"target,omitempty"`
 	Unscoped  bool           `json:"unscoped,omitempty"`
+	SessBatch int            `json:"session_batch_size,omitempty"` // create_slice / create_ptr_slice: Session{CreateBatchSize} routes Create through CreateInBatches
 	Share     bool           `json:"share,omitempty"` // records with the same non-zero key are one in-memory record shared by several parents
 	Str       string         `json:"str,omitempty"`
 	Int       int            `json:"int,omitempty"`
@@ -45,6 +46,9 @@ type Result struct {
 
 // session applies the op's session switches.
 func (op *WOp) session(db *gorm.DB) *gorm.DB {
+	if op.SessBatch > 0 {
+		db = db.Session(&gorm.Session{CreateBatchSize: op.SessBatch})
+	}
 	if op.FullSave || op.SkipHooks {
 		return db.Session(&gorm.Session{FullSaveAssociations: op.FullSave, SkipHooks: op.SkipHooks})
 	}
@@ -193,6 +197,9 @@ func GenWOp(r *core.Rand, kinds []string) WOp {
 		for i := 0; i < n; i++ {
 			op.Users = append(op.Users, g.User(r.Intn(2)))
 		}
+		if n >= 2 && op.Kind != "save_slice" && r.Chance(20) {
+			op.SessBatch = r.Range(1, 2)
+		}
 		if n >= 2 && r.Chance(35) {
 			// several parents reference one shared company / friend record
 			op.Share = true
@@ -271,6 +278,11 @@ func ShrinkWOp(op WOp) []WOp {
 	if op.Share {
 		v := op
 		v.Share = false
+		out = append(out, v)
+	}
+	if op.SessBatch > 0 {
+		v := op
+		v.SessBatch = 0
 		out = append(out, v)
 	}
 	return out
